@@ -27,7 +27,7 @@ fi
 rc_all=0
 for p in $PROPS; do
   t0=$(date +%s)
-  out=$(VERIF_REPO=$WT VERIF_SIM_DIR=$SIMD VERIF_OUT_DIR=$OUTD VERIF_MIRI_DIR=$MIRID /verif/check $p $TIER 2>&1); rc=$?
+  out=$(VERIF_MINIMISE_S=${VERIF_MINIMISE_S:-0} VERIF_REPO=$WT VERIF_SIM_DIR=$SIMD VERIF_OUT_DIR=$OUTD VERIF_MIRI_DIR=$MIRID /verif/check $p $TIER 2>&1); rc=$?
   echo "== mutant=$N prop=$p tier=$TIER exit=$rc secs=$(( $(date +%s) - t0 )) at=$(date +%s) verif=$(git -C /verif rev-parse --short HEAD)"
   echo "$out" | grep -E "VIOLATION|HARNESS|KNOWN-FINDING|NOTE|^  " | cut -c1-300 | head -12
   [ $rc -ne 0 ] && rc_all=$rc
